@@ -15,7 +15,7 @@ in closed form.
 Part 2: `assembleStruct` / `encodeSlots` key lemmas.
 Part 3: redaction.
 -/
-namespace StoneVerif.Rt
+namespace StoneVerif.Rt.PermL
 
 /-! ### Part 1: tables -/
 
@@ -1242,4 +1242,4 @@ theorem validatorOf_map_alias (n : String) (r : Redactor) (k t : IrTy) (T : PTy)
     simpa [validatorOf] using hv
   · simp at h
 
-end StoneVerif.Rt
+end StoneVerif.Rt.PermL
